@@ -146,6 +146,16 @@ pub fn run(rep: &mut Rep) {
     rep.note(&format!("exhaustive: every path of <= {depth} actions over {{start pub0/pub1/pub2/ping (<=3 ops), deliver PUBACK/PUBREC/PUBCOMP with reason 0x00 / 0x10 / 0x87, hold/release the QoS 2 future, stall/release the writer (a publish may not report success before its bytes are accepted), one inbound QoS 1 PUBLISH}}"));
     let seed = rep.seed;
     explore_world(rep, "exh", depth, &move || World::boot(WorldCfg { seed, ..Default::default() }), &a);
+    // the handshake rules do not depend on the caller still waiting: a QoS 2 exchange whose future was dropped goes on
+    let mut ac = a.clone();
+    ac.kinds = vec![Kind::Pub2, Kind::Pub1, Kind::Ping];
+    ac.drops = true;
+    ac.holds = false;
+    ac.writer_stall = false;
+    ac.inbound = vec![];
+    ac.max_inbound = 0;
+    rep.note("exhaustive with cancellation: the same paths over {pub2, pub1, ping} plus 'drop the future of any pending operation': PUBREC of an abandoned QoS 2 publish is still answered by exactly one PUBREL, PUBCOMP still ends the exchange");
+    explore_world(rep, "exhc", depth, &move || World::boot(WorldCfg { seed, ..Default::default() }), &ac);
     let mut wa = a.clone();
     wa.max_ops = 300;
     wa.max_conc = 5;
